@@ -158,7 +158,7 @@ def check(case):
         surv = 0
     nt = mobile_n >= 3 and (deformed or surv > 0)
     return {"nontrivial": nt,
-            "classes": ["relation:" + case["relation"], "deform:%s" % ("default" if case["deform"] is None else
+            "classes": ["far" if case.get("far") else "near-origin", "relation:" + case["relation"], "deform:%s" % ("default" if case["deform"] is None else
                                                                        "".join(map(str, sorted(case["deform"])))),
                         "ignore_h" if case["ignore_h"] else "keep_h", "restraints" if surv else "no-restraints",
                         "deformed" if deformed else "rigid", "second-round" if second else "single-round",
